@@ -21,5 +21,12 @@ fn main() {
         }
     }
     vcore::core_configs!(cfg, &mut run);
+    // wide types: digit counts of 64 and above (a threshold at which big-number libraries commonly
+    // switch conversion algorithm)
+    cfg!(&mut run, d8, 64, BigRef);
+    if run.tier == Tier::Thorough {
+        cfg!(&mut run, d16, 64, BigRef);
+        cfg!(&mut run, d32, 65, BigRef);
+    }
     std::process::exit(run.finish());
 }
